@@ -1090,7 +1090,8 @@ func runCase(run *hx.Run, c *caseSpec, opHist *[256]int) {
 	before := db.view()
 	nonceBefore := sdb.GetNonce(addrS)
 	var rootBefore common.Hash
-	if c.kind != "create" {
+	checkRoot := c.kind != "create" && c.family != "arity-probe"
+	if checkRoot {
 		rootBefore = sdb.Copy().IntermediateRoot(false)
 	}
 	var (
@@ -1137,7 +1138,7 @@ func runCase(run *hx.Run, c *caseSpec, opHist *[256]int) {
 		if d := db.diffViews(before, after, false, cr); d != "" {
 			tr.violate("failed-frame-state", "top-level-"+c.kind+"-failed-but-state-changed", class+": "+d)
 		}
-		if c.kind != "create" {
+		if checkRoot {
 			if r2 := sdb.Copy().IntermediateRoot(false); r2 != rootBefore {
 				tr.violate("failed-frame-state", "top-level-"+c.kind+"-failed-but-state-root-changed", fmt.Sprintf("%s: root %x -> %x", class, rootBefore, r2))
 			}
@@ -1348,7 +1349,7 @@ func main() {
 				}
 			}
 		}
-		if c.family == "template" && tk < 5 && r.Intn(5) == 0 {
+		if c.family == "template" && tk < 5 && r.Intn(7) == 0 {
 			// the only way to reach the depth limit under the 63/64 rule: far more gas than a block holds
 			c.gas = uint64(1)<<41 + r.U64()%(uint64(1)<<42)
 			c.family = "template-deep"
@@ -1365,6 +1366,43 @@ func main() {
 		slowDesc = slowDesc[:600]
 	}
 	run.Notes["slowest_case"] = fmt.Sprintf("%.2fs %s", slowest, slowDesc)
+	// ---- arity probes: every opcode byte with every stack height around its arity (operands zero / small / huge), in every
+	// rule set: validateStack must reject what execute cannot handle (an opcode executing with too few items panics)
+	for ri, rs := range sets {
+		isByzSet := rs.name == "byzantium" || rs.name == "springPre7" || rs.name == "spring"
+		for op := 0; op < 256; op++ {
+			maxH := 8
+			if op >= 0x80 && op <= 0x9f {
+				maxH = 18
+			}
+			for h := 0; h <= maxH; h++ {
+				r := rng.Fork(uint64(1000000 + ri*100000 + op*32 + h))
+				g := &gen{r: r, byz: isByzSet}
+				a := &asm{}
+				mode := r.Intn(3)
+				for k := 0; k < h; k++ {
+					switch mode {
+					case 0:
+						a.pushU(0)
+					case 1:
+						a.push(g.small())
+					default:
+						a.push(g.val(40))
+					}
+				}
+				a.op(byte(op), 0x00)
+				c := &caseSpec{rs: rs, value: new(big.Int), to: addrA, kind: "call", family: "arity-probe", codeA: a.b, codeB: []byte{0x00}, codeC: []byte{0xfe},
+					gas: 200000, input: []byte{1, 2, 3}}
+				if r.Intn(4) == 0 {
+					c.kind = "static"
+				}
+				t0 := time.Now()
+				runCase(run, c, &opHist)
+				famTime[c.family] += time.Since(t0).Seconds()
+			}
+		}
+	}
+	run.Notes["family_seconds"] = famTime
 	// opcode coverage
 	covered := 0
 	for i := 0; i < 256; i++ {
